@@ -10,7 +10,7 @@ import (
 	"verif/harness/spec"
 )
 
-var c19Patterns = []string{"silent", "traffic-then-silent", "ping", "publish-only", "trickle", "silent-mid-packet", "silent-after-header-byte", "uneven", "large-then-ping"}
+var c19Patterns = []string{"silent", "traffic-then-silent", "ping", "publish-only", "trickle", "silent-mid-packet", "silent-after-header-byte", "uneven", "large-then-ping", "silent-receiving"}
 var c19Fractions = []float64{0.25, 0.5, 0.9, 0.99}
 
 func c19Run(t *testing.T, K int, pattern string, frac float64, idx int) {
@@ -129,16 +129,42 @@ func c19Run(t *testing.T, K int, pattern string, frac float64, idx int) {
 				return
 			}
 		}
+		// "silent-receiving": the subject holds a subscription and keeps RECEIVING publications from
+		// another client at intervals shorter than K while it sends nothing itself: what the broker
+		// writes to it must not count as activity of the client
+		var feeder *bclient
+		if pattern == "silent-receiving" {
+			if sa, _ := c.subscribeB([]string{"ka/feed"}, []byte{0}); sa == nil {
+				fail("c19:suback", "subject")
+				return
+			}
+			lastByte = time.Now()
+			var fa *rc.Packet
+			feeder, fa = w.connectB("feeder", connectOpts{Clean: true, KeepAlive: 60000})
+			if fa == nil {
+				fail("c19:connect", "feeder")
+				return
+			}
+		}
 		// ---- silent phase: must be dropped after more than K and by 2K, as an abnormal end
 		step := kd / 20
 		var droppedAfter time.Duration = -1
+		fed := 0
 		for el := time.Duration(0); el <= 3*kd; el += step {
 			if c.Closed() {
 				droppedAfter = time.Since(lastByte)
 				break
 			}
+			if feeder != nil && el >= time.Duration(fed+1)*interval {
+				fed++
+				feeder.SendPacket(&rc.Packet{Type: rc.PUBLISH, Topic: []byte("ka/feed"), Payload: spec.MakePayload(uint64(1000+fed), 0, 30)})
+				settle()
+			}
 			time.Sleep(step)
 			settle()
+		}
+		if feeder != nil {
+			out.Count("c19.fed_while_silent", int64(fed))
 		}
 		if c.Closed() && droppedAfter < 0 {
 			droppedAfter = time.Since(lastByte)
